@@ -10,7 +10,11 @@ Two inputs of the rule set live outside a row and are varied on their own: the S
 system boards BN_SECURITY / BN_ALLPOST are named by an ini file loaded through initgin.InitAllConfig after package
 initialisation; rows address a board by name) and the WRITER'S UID in both builds (op 10: default, and the production
 table sizes of `-tags docker` in a second driver build/implrun_docker; uids around MAX_BOARD, 2^16 and MAX_USERS, with
-the opposite cool-down state planted at the uids a wrong index or bound would read)."""
+the opposite cool-down state planted at the uids a wrong index or bound would read).
+A third input is the BOARD'S OWN NAME (op 11): two rules know a board only by its name (the read-only system boards, the
+default board). Next to all the boards of the scratch BBS a further board is given a name related to a special board's
+name (longer with the same beginning, shorter, other case + longer, one character off, unrelated) and rows are run on it:
+it must follow the ordinary rules unless it carries the special name itself."""
 import os, sys
 from concurrent.futures import ThreadPoolExecutor
 sys.path.insert(0, os.path.join(os.path.dirname(os.path.abspath(__file__)), "..", "lib"))
@@ -317,6 +321,54 @@ def board_name_eq(a, b):
     return low(a) == low(b)
 
 
+N_DEFAULT = N_SYSOP                                       # ptttype.DEFAULT_BOARD (the driver reports a status 3 3 when the code says otherwise)
+FIXTURE_BOARDS = [b"SYSOP", b"1...........", b"junk", b"Security", b"2...........", b"ALLPOST", b"deleted", b"Note", b"Record", b"WhoAmI",
+                  b"EditExp", b"ALLHIDPOST"]
+
+
+def fixture_boards():
+    """the names of all the boards of the scratch BBS (the fixture's .BRD1: 256-byte records, name first)"""
+    try:
+        d = open(os.path.join(os.environ.get("VERIF_REPO", "/repo"), "ptt", "testcase", ".BRD1"), "rb").read()
+        names = [cstr(d[i:i + 13], 13) for i in range(0, len(d) - 255, 256)]
+        return [n for n in names if n] or FIXTURE_BOARDS
+    except OSError:
+        return FIXTURE_BOARDS
+
+
+def related_names(rng, boards, thorough):
+    """(name, relation, special name) for the further board of op 11: names related to the names of the special boards (the
+    default board, the two read-only system boards) and of other boards by prefix / extension / case / one character"""
+    alnum = b"abcdefghijklmnopqrstuvwxyzABCDEFGHIJKLMNOPQRSTUVWXYZ0123456789"
+    res = [(N_SYSOP, "is", N_SYSOP), (N_ALLPOST, "is", N_ALLPOST), (N_WHOAMI, "is", N_WHOAMI)]      # controls: the boards themselves
+    tails = [b"2", b"_", b"note", b"-bugs", b"X" * 12]
+    for S in (N_DEFAULT, N_SECURITY, N_ALLPOST, b"Note", b"Record"):
+        for t in tails + [bytes(rng.choice(alnum) for _ in range(rng.randrange(1, 8)))]:
+            res.append(((S + t)[:12], "extends", S))
+        res.append((S.lower() + b"x", "other-case-extends", S))
+        res.append((S.swapcase() + bytes([rng.choice(alnum)]), "other-case-extends", S))
+        k = rng.randrange(len(S))
+        res.append((S[:k] + S[k:k + 1].swapcase() + S[k + 1:] + b"note", "other-case-extends", S))
+        for k in sorted({len(S) - 1, len(S) - 2, 3, 1}):
+            if 1 <= k < len(S):
+                res.append((S[:k], "prefix-of", S))
+        res.append((S[:-1] + (b"Q" if S[-1:] != b"Q" else b"R"), "one-character-off", S))
+        res.append((b"x" + S, "ends-with", S))
+        res.append((S[1:], "suffix-of", S))
+    for _ in range(40 if thorough else 6):
+        res.append((bytes(rng.choice(alnum) for _ in range(rng.randrange(1, 13))), "unrelated", b""))
+    out, seen = [], set()
+    for (n, rel, S) in res:
+        if n in seen or not 1 <= len(n) <= 12:
+            continue
+        # board names are unique up to case within a BBS: a name another board carries (in any case) is not a further board
+        if rel != "is" and any(board_name_eq(n, b) for b in boards):
+            continue
+        seen.add(n)
+        out.append((n, rel, S))
+    return out
+
+
 def gen_const(build, name):
     """a constant of the Go source as gosync regenerated it for this run (coq/Gen/Consts_<build>.v)"""
     import re
@@ -353,6 +405,12 @@ def replay_docker(path):
         bad = bad or out[-1].strip() != obj["expected"].strip()
     print("replay: %s" % ("property still violated on this input" if bad else "input now behaves"))
     sys.exit(1 if bad else 0)
+
+
+def urng_names(c):
+    """the name generator's own stream (the table's stream stays what it was)"""
+    import random
+    return random.Random(c.seed * 104729 + 11)
 
 
 def tick(label, _t=[None]):
@@ -408,6 +466,27 @@ def main():
                     l9.append("9|%d|%s|%s|%s|%s" % (op, bts(sec), bts(allpost), bts(tgt), line(op, rr).split("|", 1)[1]))
                     m9.append((op, reff, t, sec, allpost, tgt, ro))
     f9 = side.submit(run_impl_par, l9, 4)
+    # ---- op 11: a further board whose NAME is related to a special board's name (compiled-in configuration)
+    boards = fixture_boards()
+    names11 = related_names(urng_names(c), boards, thorough)
+    D = dict(DEV)
+    nm_rows = list(cfg_rows) if thorough else [(r, t) for (r, t) in cfg_rows if t[-1] in (
+        "base", "sysop", "no-post", "no-loginok", "violatelaw", "friend", "banned", "guestpost", "hidden", "restrictedpost", "level-angel",
+        "level-violatelaw", "few-logins", "cd-active-full", "not-owner")]
+    for pair in (("violatelaw", "level-violatelaw"), ("friend", "restrictedpost"), ("guestpost", "no-post"), ("hidden", "no-post"), ("banned", "no-post"),
+                 ("no-post", "restrictedpost"), ("no-post", "level-angel"), ("violatelaw", "no-post")):
+        r = dict(BASE); D[pair[0]](r); D[pair[1]](r); nm_rows.append((r, pair))
+    l11, m11 = [], []
+    for (nm, rel, S) in names11:
+        ro = board_name_eq(nm, SITE_CONFIGS[0][0]) or board_name_eq(nm, SITE_CONFIGS[0][1])
+        df = cstr(nm, 13) == cstr(N_DEFAULT, 13)                      # the very same name: whole C strings, case kept
+        for (r, t) in nm_rows:
+            rr = dict(r, bsel=0)
+            reff = dict(rr, bsel=1 if ro else 2 if df else 0)          # what the rule set sees through the name
+            for op in (1, 2, 3, 4, 5):
+                l11.append("11|%d|%s|%s|%s|%s|%s" % (op, bts(SITE_CONFIGS[0][0]), bts(SITE_CONFIGS[0][1]), bts(N_DEFAULT), bts(nm), line(op, rr).split("|", 1)[1]))
+                m11.append((op, reff, t, nm, rel, S, ro, df))
+    f11 = side.submit(run_impl_par, l11, 3)
     cd_devs = [(n, f) for (n, f) in sdev if n.startswith("cd-")]
     co_devs = [(n, f) for (n, f) in sdev if n in ("sysop", "inbm", "banned", "guestpost", "no-loginok", "few-logins", "not-owner") or
                (thorough and n in ("friend", "restrictedpost", "hidden", "no-post", "badposts", "violatelaw", "missing-article", "norecommend"))]
@@ -557,8 +636,9 @@ def main():
         f = facts(r)
         exp = dict(exp)
         where = ""
-        ro_sfx = cd_sfx = ""
+        ro_sfx = cd_sfx = nm_sfx = ""
         if ctx:
+            nm_sfx = ctx.get("name_key", "")
             exp.update(ctx.get("replay", {}))
             where = " [" + ctx["what"] + "]"
             ro_sfx, cd_sfx = ctx.get("ro_key", ""), ctx.get("cd_key", "")
@@ -569,7 +649,7 @@ def main():
         if op == 5:
             ok_perm, restricted, cooling = fo[1] == "0", fo[2] == "1", fo[3] == "1"
             if ok_perm != f["posting_rules"]:
-                c.violation("piece:CheckPostPerm2" + (ro_sfx if f["readonly"] or fo[1] == "2" else ""),
+                c.violation("piece:CheckPostPerm2" + (ro_sfx if f["readonly"] or fo[1] == "2" else "") + nm_sfx,
                             "CheckPostPerm2 = %s where the posting rules say %s; %s" % (fo[1], f["posting_rules"], l), dict({"cases": [l0], "got": o}, **exp))
             if restricted == f["limits_ok"]:
                 c.violation("piece:CheckPostRestriction", "CheckPostRestriction = %s where limits_ok = %s; %s" % (not restricted, f["limits_ok"], l), dict({"cases": [l0], "got": o}, **exp))
@@ -591,7 +671,7 @@ def main():
             if not f["readable"]:
                 key = "%s-unreadable" % name.lower()
             elif not f["posting_rules"]:
-                key = "%s-posting-rules" % name.lower() + (ro_sfx if f["readonly"] else "")
+                key = "%s-posting-rules" % name.lower() + (ro_sfx if f["readonly"] else "") + nm_sfx
             elif not f["limits_ok"]:
                 key = "%s-no-limits" % name.lower()
             elif not f["verified"]:
@@ -616,7 +696,7 @@ def main():
                    4: r["exists"] and not r["ulevel"] & P["VIOLATELAW"] and f["src_readable"] and not f["src_voteboard"] and
                       (not f["src_cplog"] or (f["src_rules"] and f["src_limits_ok"]))}[op]
             if pre:
-                c.violation("spurious-refusal:" + name + (ro_sfx if code == 2 else ""), "%s refused (%d) a write the rule set allows; %s" % (name, code, l), dict({"cases": [l0], "got": o}, **exp))
+                c.violation("spurious-refusal:" + name + (ro_sfx if code == 2 else "") + nm_sfx, "%s refused (%d) a write the rule set allows; %s" % (name, code, l), dict({"cases": [l0], "got": o}, **exp))
 
     for k_line, ((op, r, t), l, o) in enumerate(zip(meta, lines, out)):
         judge(op, r, t, l, o, {"expected": mo[k_line]} if model else {})
@@ -639,6 +719,33 @@ def main():
         judge(op, reff, ("cfg", sec, allpost, tgt) + t, l, o, {"expected": mo9[k]} if model else {}, ctx)
 
     tick("cfg done")
+    # ---------------------------------------------------------------- the board's own NAME: a further board next to the special ones
+    # the board carries a name related to the default board's / a read-only system board's / another board's name. It is
+    # the default board / read-only exactly when the name IS that name (default board: the same C string; read-only: up to
+    # case); otherwise every posting rule applies to it as to any ordinary board, and a refusal leaves no trace
+    o11 = f11.result()
+    tick("names impl")
+    c.count(len(l11), "rows x operations on a further board under %d names related to the special boards' names (%s)" % (
+        len(names11), ", ".join("%d %s" % (sum(1 for x in names11 if x[1] == k), k) for k in sorted({x[1] for x in names11}))))
+    mo11 = vf.run_model(model, l11) if model else None
+    if model:
+        vf.correspond(c, "rows on a board named by the case (default board / read-only boards decided from the name)", l11, o11, mo11)
+    for k, ((op, reff, t, nm, rel, S, ro, df), l, o) in enumerate(zip(m11, l11, o11)):
+        kind = "the read-only board %s" % S.decode() if rel == "is" and ro else "the default board" if rel == "is" and df else \
+               "the ordinary board WhoAmI" if rel == "is" else "a further board next to %s; its name %s" % (
+                   ", ".join(b.decode() for b in boards if b in (N_DEFAULT, N_SECURITY, N_ALLPOST, S)), {
+                       "extends": "starts with the name of %s and is longer", "other-case-extends": "starts with the name of %s in another case and is longer",
+                       "prefix-of": "is a proper prefix of the name of %s", "one-character-off": "differs from the name of %s in its last character",
+                       "ends-with": "ends with the name of %s", "suffix-of": "is the name of %s without its first character",
+                       "unrelated": "is unrelated to any board's%s"}[rel] % (S.decode() if S else ""))
+        special = "DEFAULT_BOARD" if S == N_DEFAULT else "read-only-board" if S in (N_SECURITY, N_ALLPOST) else "another-board" if S else "no-board"
+        ctx = {"what": "board named %s (%s): %s" % (nm.decode(), kind, "read-only" if ro else "the default board" if df else "an ordinary board by its name"),
+               "ro_key": ":board-%s-by-name" % ("read-only" if ro else "not-read-only"),
+               "name_key": "" if rel == "is" else ":board-name-%s-%s" % (rel, special)}
+        judge(op, reff, ("name", rel, special, len(nm) == 12) + t, l, o, {"expected": mo11[k]} if model else {}, ctx)
+    c.cov["distribution"]["board names (op 11)"] = len(names11)
+
+    tick("names done")
     # ---------------------------------------------------------------- the writer's uid: SHM->cooldowntime[uid-1], both builds
     for build, (exe, max_users, max_board, uids, l10, m10, f10) in jobs10.items():
         o10 = [o for fu in f10 for o in fu.result()]
@@ -670,6 +777,9 @@ def main():
         "site configurations: %d (BN_SECURITY, BN_ALLPOST) pairs (compiled-in, either / both renamed to existing boards, other case, the default board, names sharing "
         "only a prefix with a board) x %d target boards x base + all single deviations (+ sysop pairs) where the target is read-only or the names are the compiled-in ones" % (
             len(SITE_CONFIGS), len(TARGETS)),
+        "board names: every generated name (%d; per special board: 6 longer names incl. the 12-character one, 3 names in another case + longer, its proper "
+        "prefixes of length 1, 3, n-2, n-1, last character off, leading character added, first character removed) x base + 14 single + 8 pair "
+        "deviations x 5 operations" % len(names11),
         "writer uids: every cool-down state x {alone, sysop, moderator, banned, guest-post, unverified, few logins, not owner} x 5 operations for each uid of "
         "default %s / docker %s" % (jobs10["default"][3], jobs10["docker"][3])]
     c.cov["structured_rows"] = n_struct
@@ -680,10 +790,15 @@ def main():
                   "Recommend, EditPost, CrossPost, rule pieces, with snapshots of every board directory and index; getRestrictionReason and isFileOwner swept on their own; "
                   "a case is non-trivial per distinct (operation, outcome code, deviation set); + rows under site configurations naming the read-only system boards "
                   "(ini file -> initgin.InitAllConfig) x target boards by name; + cool-down rows x writer uids around MAX_BOARD / 2^16 / MAX_USERS in the default and the "
-                  "-tags docker build, neighbours' cool-down words planted in the opposite state" % len(DEV),
+                  "-tags docker build, neighbours' cool-down words planted in the opposite state; + rows on a further board whose name is related to the name of the default board / a "
+                  "read-only system board / another board (PRNG(seed) tails and case flips)" % len(DEV),
              assumptions=["site configuration: only the names of the read-only system boards (BN_SECURITY, BN_ALLPOST) are varied, loaded from an ini file through "
                           "initgin.InitAllConfig after package initialisation; BN_ALLPOST is only renamed to an existing board in its own spelling (the code also "
                           "writes its log there); every other configuration value at its default",
+                          "board names: the further board of the name rows is the board-cache slot and a fresh directory of the ordinary fixture board "
+                          "under the chosen name (name index re-sorted by cache.SortBCache), one name at a time, next to every board of the scratch BBS, "
+                          "under the compiled-in BN_SECURITY / BN_ALLPOST; ptttype.DEFAULT_BOARD is compared with the name the case carries on every row "
+                          "(observed, not proved); a name that another board carries in another case is not generated (board names are unique up to case)",
                           "builds: default (MAX_USERS 50) and -tags docker (MAX_USERS 2 000 000, MAX_BOARD 20 000); in the docker build only the cool-down rows are run, "
                           "for %d writer uids (the records of high uids live in a sparsely extended .PASSWDS of the scratch BBS)" % len(jobs10["docker"][3]),
                           "build-time switches at their defaults (USE_COOLDOWN, REJECT_FLOOD_POST, USE_NEW_BAN_SYSTEM, USE_SYSOP_EDIT, SAFE_ARTICLE_DELETE = true)",
